@@ -146,10 +146,20 @@ func commandTid(m trackedMsg) (name string, tid float64, ok bool) {
 	return string(p[3 : 3+l]), math.Float64frombits(binary.BigEndian.Uint64(p[3+l+1 : 3+l+9])), true
 }
 
-// completedRequests feeds one transport write and returns the transaction ids of the requests it completes.
-func (t *tracker) completedRequests(p []byte) (tids []int) {
+// completedTids feeds one transport write and returns the transaction ids (any AMF0 number) of the requests it completes.
+func (t *tracker) completedTids(p []byte) (tids []float64) {
 	for _, m := range t.Feed(p) {
-		if _, tid, ok := commandTid(m); ok && tid == math.Trunc(tid) {
+		if _, tid, ok := commandTid(m); ok {
+			tids = append(tids, tid)
+		}
+	}
+	return
+}
+
+// completedRequests is completedTids for drivers whose transaction ids are small integers.
+func (t *tracker) completedRequests(p []byte) (tids []int) {
+	for _, tid := range t.completedTids(p) {
+		if tid == math.Trunc(tid) && math.Abs(tid) < 1<<30 {
 			tids = append(tids, int(tid))
 		}
 	}
